@@ -48,6 +48,7 @@ theorem Ty.TA.us : ∀ (n : Nat) (t : Ty), t.w ≤ n → t.TA sfh → t.US := by
     · exact ih _ (by omega) h
     · exact ih _ (by omega) h
     · exact ih _ (by omega) h
+    · exact ih _ (by omega) h
 
 theorem famT_good : ∀ (n : Nat) (t : Ty), t.w ≤ n → t.FamT cfg sfh → Ty.Good cfg sfh t := by
   intro n
